@@ -289,6 +289,12 @@ func run(prop string, plan Plan, tier string) int {
 		fmt.Fprintln(os.Stderr, "a step failed without naming a failing case: treated as infrastructure failure")
 		infra = true
 	}
+	// replay files of an earlier run with the same tier and seed are stale now
+	if old, _ := filepath.Glob(filepath.Join(persistDir, fmt.Sprintf("%s-seed%d-*", tier, sd))); len(old) > 0 {
+		for _, o := range old {
+			_ = os.Remove(o)
+		}
+	}
 	if anyFail {
 		_ = os.MkdirAll(persistDir, 0o755)
 		sort.Strings(reps)
